@@ -487,25 +487,63 @@ def gen_cases(ctx):
     return cases
 
 
+class _MiniCtx:
+    """what run_history needs of a Ctx, picklable results (worker processes)"""
+
+    def __init__(self):
+        self.stats = {}
+        self.viol = []
+
+    def count(self, key, n=1):
+        self.stats[key] = self.stats.get(key, 0) + n
+
+    def violation(self, site, kind, detail, **kw):
+        self.viol.append((site, kind, detail, kw))
+
+
+def _worker(chunk):
+    mc, oracle, out = _MiniCtx(), Oracle(), []
+    for (c, h) in chunk:
+        me, ck = [], []
+        run_history(mc, c, h, oracle, None, me, ck)
+        out.append(ck[0][2])
+    return out, mc.stats, mc.viol, len(oracle.memo)
+
+
 def run(ctx):
-    oracle = Oracle()
     groups = {}
     cases = gen_cases(ctx)
-    model_exprs, checks = [], []
-    seen = set()
+    uniq, seen = [], set()
     for (c, h) in cases:
         key = (cfg_key(c), tuple(h))
         if key in seen:
             continue
         seen.add(key)
+        uniq.append((c, h))
         ctx.case({'cfg': cfg_key(c), 'h': h}, nontrivial=any(o[0] == 'eval' for o in h))
         ctx.count('cfg:' + cfg_key(c))
         ctx.count('len:%d' % len(h))
-        run_history(ctx, c, h, oracle, groups, model_exprs, checks)
-    ctx.sample({'cfg': cfg_key(cases[-1][0]), 'history': cases[-1][1]})
-    ctx.sample({'cfg': cfg_key(cases[0][0]), 'history': cases[0][1]})
+    ctx.sample({'cfg': cfg_key(uniq[-1][0]), 'history': uniq[-1][1]})
+    ctx.sample({'cfg': cfg_key(uniq[0][0]), 'history': uniq[0][1]})
+    # the implementation side: worker processes (each history builds its own objects)
+    nproc = 6 if ctx.thorough() else 2
+    size = max(50, min(600, len(uniq) // (nproc * 4) + 1))
+    chunks = [uniq[i:i + size] for i in range(0, len(uniq), size)]
+    model_exprs, checks, nref = [], [], 0
+    import concurrent.futures
+    import multiprocessing
+    with concurrent.futures.ProcessPoolExecutor(max_workers=nproc, mp_context=multiprocessing.get_context('fork')) as ex:
+        for chunk, (out, stats, viol, nmemo) in zip(chunks, ex.map(_worker, chunks)):
+            nref += nmemo
+            for k, v in stats.items():
+                ctx.count(k, v)
+            for (site, kind, detail, kw) in viol:
+                ctx.violation(site, kind, detail, **kw)
+            for (c, h), steps in zip(chunk, out):
+                model_exprs.append(history_coq(c, h))
+                checks.append((c, h, steps))
     interp_multi(ctx)
-    ctx.count('fresh-object-references', len(oracle.memo))
+    ctx.count('fresh-object-references', nref)
     if ctx.model_ok:
         try:
             vals = common.coq_eval('c06', IMPORTS, model_exprs)
